@@ -10,6 +10,7 @@ import Driver.Breaker
 import Driver.Queue
 import Driver.Grammar
 import Driver.Store
+import Driver.Subscription
 import Driver.Protocol
 
 open Driver
@@ -21,6 +22,7 @@ structure DState where
   breaker : Option SierraModel.Breaker.Sys := none
   c12 : Driver.Queue.St := {}
   store : Driver.Store.St := {}
+  c09 : Option SierraModel.Subscription.Sys := none
   c10 : Driver.Protocol.St := {}
 
 def step (st : DState) (toks : List String) : DState × String :=
@@ -31,6 +33,7 @@ def step (st : DState) (toks : List String) : DState × String :=
   | "c13" :: rest => (st, Topo.c13 rest)
   | "c14" :: rest => let (m, r) := Topo.c14 st.mgrs rest; ({ st with mgrs := m }, r)
   | "c10" :: rest => let (p, r) := Protocol.c10 st.c10 rest; ({ st with c10 := p }, r)
+  | "c09" :: rest => let (c, r) := Subscription.c09 st.c09 rest; ({ st with c09 := c }, r)
   | "c26" :: rest => let (b, r) := Breaker.c26 st.breaker rest; ({ st with breaker := b }, r)
   | "c12" :: rest => let (q, r) := Queue.c12 st.c12 rest; ({ st with c12 := q }, r)
   | "c21" :: rest => (st, Grammar.c21 rest)
